@@ -72,6 +72,7 @@ BODIES = [
     json.dumps([{'jsonrpc': '2.0', 'method': 'fail_rpc', 'id': 1}, {'jsonrpc': '2.0', 'method': 'fail_rpc', 'id': 2},
                 {'jsonrpc': '2.0', 'method': 'fail_rpc', 'id': 3}, {'jsonrpc': '2.0', 'method': 'noargs', 'id': 4}]),
     json.dumps([{'jsonrpc': '2.0', 'method': 'noargs', 'id': 1}, {'jsonrpc': '2.0', 'method': 'noargs', 'id': 2}]),
+    '\ufeff' + json.dumps({'jsonrpc': '2.0', 'method': 'echo', 'params': [1], 'id': 1}),       # a byte order mark is not JSON: -32700
     '[]', '{', '', 'null', '{"jsonrpc": "2.0", "method": "echo", "params": ["\\u00e9"], "id": 9}',
 ]
 RAW_BODIES = [b'\xff\xfe{"jsonrpc":"2.0"}', b'{"jsonrpc":"2.0","method":"echo","params":["\xe9"],"id":1}']
